@@ -36,6 +36,66 @@ func c15Specs() []*edt.Spec {
 	keyOK := func(e *edt.Env) edt.Tri {
 		return edt.And(e.V("pkLen32"), e.V("canonY"), e.V("decodeY"), edt.Not(e.V("smallY")))
 	}
+	specs := c15CoreSpecs(verifyAb, cantFail, proofOK, keyOK)
+	// --- the exported wrappers select the challenge format by their name and hand every argument on unchanged ---
+	for _, w := range []struct {
+		fn   string
+		flag string
+	}{{"", "false"}, {"_v10", "true"}} {
+		flag := w.flag
+		core := "ecvrf.doProve(nil, $sk, $alphaString, " + flag + ")"
+		specs = append(specs, &edt.Spec{
+			Pkg: "primitives/ed25519/extra/ecvrf", Func: "Prove" + w.fn, Opaque: []string{"ecvrf.doProve"}, MinPaths: 2,
+			Vars: map[string]string{"isnil(err(" + core + "))": "ok"},
+			Classify: func(p *edt.Path, out string, e *edt.Env) string {
+				switch out {
+				case "panic(err(" + core + "))":
+					return "panic"
+				case "res0(" + core + ")":
+					return "proof"
+				}
+				return ""
+			},
+			Formula: map[string]func(e *edt.Env) edt.Tri{
+				"proof": func(e *edt.Env) edt.Tri { return e.V("ok") },
+				"panic": func(e *edt.Env) edt.Tri { return edt.Not(e.V("ok")) },
+			},
+		})
+		def := "ecvrf.doProve(@rand.Reader, $sk, $alphaString, " + flag + ")"
+		given := "ecvrf.doProve($sk, $alphaString, " + flag + ")"
+		specs = append(specs, &edt.Spec{
+			Pkg: "primitives/ed25519/extra/ecvrf", Func: "ProveWithAddedRandomness" + w.fn, Opaque: []string{"ecvrf.doProve"}, MinPaths: 2,
+			Vars: map[string]string{"isnil(ptr($rand))": "randNil"},
+			Classify: func(p *edt.Path, out string, e *edt.Env) string {
+				switch out {
+				case "res0(" + def + ") ; err(" + def + ")":
+					return "default-entropy"
+				case "res0(" + given + ") ; err(" + given + ")":
+					return "given-entropy"
+				}
+				return ""
+			},
+			Formula: map[string]func(e *edt.Env) edt.Tri{
+				"default-entropy": func(e *edt.Env) edt.Tri { return e.V("randNil") },
+				"given-entropy":   func(e *edt.Env) edt.Tri { return edt.Not(e.V("randNil")) },
+			},
+		})
+		ver := "ecvrf.doVerify($pk, $piString, $alphaString, " + flag + ")"
+		specs = append(specs, &edt.Spec{
+			Pkg: "primitives/ed25519/extra/ecvrf", Func: "Verify" + w.fn, Opaque: []string{"ecvrf.doVerify"}, MinPaths: 1, Vars: map[string]string{},
+			Classify: func(p *edt.Path, out string, e *edt.Env) string {
+				if out == "res0("+ver+") ; res1("+ver+")" {
+					return "delegates"
+				}
+				return ""
+			},
+			Formula: map[string]func(e *edt.Env) edt.Tri{"delegates": always},
+		})
+	}
+	return specs
+}
+
+func c15CoreSpecs(verifyAb [][2]string, cantFail map[string]edt.Assumption, proofOK, keyOK func(e *edt.Env) edt.Tri) []*edt.Spec {
 	return []*edt.Spec{
 		// --- challenge: suite ‖ 0x02 ‖ [Y] ‖ H ‖ Gamma ‖ U ‖ V ‖ 0x00, truncated to 16 bytes -------------
 		{
